@@ -301,7 +301,7 @@ func c15(c *an.Check) {
 
 func init() {
 	register(&Def{ID: "C15", Run: c15,
-		Explain:     "Decides on SSA: (SIBLING) for every declared HashType constant and three undeclared representatives, the per-value abstract evaluation of HashType.Validate / Sum / BuildHasher / GetHashLen agrees (accepted ⇒ supported with positive length; rejected ⇒ Sum errors) and SupportedHashTypes equals the accepted set; (R1) Hash.VerifyData succeeds only past Sum ok and bytes.Equal(computed, stored) over Sum(own type, data); Hash.Validate succeeds only past HashType.Validate ok and len(digest)==GetHashLen(own type); CompareHash returns true only when both are nil or types and digests are equal; hash.Sum pairs the digest with the type used; (MIRROR) MarshalString/ParseFromB58 are base58 over the protobuf encoding. (SIBLING) for every accepted type GetHashLen equals the length Sum returns and the digest size of the algorithm BuildHasher constructs; (PROVENANCE) MarshalString returns \"\" only for a nil hash or a marshalling error, every other return is the base58 of the protobuf encoding.",
+		Explain:     "Decides on SSA: (SIBLING) for every declared HashType constant and three undeclared representatives, the per-value abstract evaluation of HashType.Validate / Sum / BuildHasher / GetHashLen agrees (accepted ⇒ supported with positive length; rejected ⇒ Sum errors) and SupportedHashTypes equals the accepted set; (R1) Hash.VerifyData succeeds only past Sum ok and bytes.Equal(computed, stored) over Sum(own type, data); Hash.Validate succeeds only past HashType.Validate ok and len(digest)==GetHashLen(own type); CompareHash returns true only when both are nil or types and digests are equal; hash.Sum pairs the digest with the type used; (MIRROR) MarshalString/ParseFromB58 are base58 over the protobuf encoding. (SIBLING) for every accepted type GetHashLen equals the length Sum returns and the digest size of the algorithm BuildHasher constructs; (PROVENANCE) MarshalString returns \"\" only for a nil hash or a marshalling error, every other return is the base58 of the protobuf encoding. Generated codec sanity for package hash (copying UnmarshalVT, guarded sub-slices, encode/size agreement, tags).",
 		NotCov:      "base58/protobuf round-trip and digest functions themselves (trusted); the 'succeeds whenever equal' direction is implied only structurally (no other rejecting branch is looked for).",
 		Assumptions: commonAssumptions})
 }
